@@ -170,6 +170,8 @@ def tags_of(V, C):
 def tets(draw, max_cells=60, parity=None):
     base = draw(st.sampled_from(["single", "two", "ring_closed", "ring_open", "kuhn", "kuhn", "delaunay"] * 2 + ["cavity"]))
     a = draw(st.integers(0, 5)); b = draw(st.integers(0, 5)); c = draw(st.integers(0, 5))
+    if base == "cavity" and max_cells < 30:
+        base = "kuhn"          # (156 cells: only for callers that accept meshes of that size)
     if base == "single":
         V, C = single()
     elif base == "two":
